@@ -176,6 +176,20 @@ def rand_text(rng, maxchars=8):
             out.append("%02x%02x" % (0xc0 | (cp >> 6), 0x80 | (cp & 0x3f)))
     return "".join(out) or "-"
 
+BAD_ELEMS = ["01", "09", "0a", "1b", "1f", "7f", "80", "9f", "bf", "f8", "ff", "c280", "c29f", "c285"]
+BAD_TAILS = ["c2", "c3", "e2", "e282", "f0", "f09f", "f09f98"]      # truncated sequences: only at the very end
+def bad_text(rng):
+    """a text put_string rejects (tickit_utf8_ncount returns -1): a control character, a byte that cannot lead a
+    sequence, a C1 control, or a truncated multi-byte sequence, after a prefix of ordinary characters"""
+    pre = rand_text(rng, 5); pre = "" if pre == "-" else pre
+    if rng.random() < 0.35: return pre + rng.choice(BAD_TAILS)
+    suf = rand_text(rng, 3); suf = "" if suf == "-" else suf
+    return pre + rng.choice(BAD_ELEMS) + suf
+def text_op(rng): return rng.choice(["btext", "btext", "btextf", "btextc"])
+def long_text(rng):
+    """more than the 64 bytes put_vtextf keeps on the stack"""
+    return "".join("%02x" % rng.choice(ASCII) for _ in range(rng.randint(62, 70)))
+
 def gen_objects_history(rng):
     emit("new 6 12")
     nw = 1; npens = 0; nstr = 0; nrb = 0
@@ -192,7 +206,10 @@ def gen_objects_history(rng):
         elif r < 0.46 and nstr: emit("%s %d" % (rng.choice(["sref", "sunref", "sunref", "sget"]), rng.randrange(nstr)))
         elif r < 0.52: emit("rb %d %d" % (rng.randint(1, 3), rng.randint(1, 10))); nrb += 1
         elif r < 0.60 and nrb: emit("%s %d" % (rng.choice(["bref", "bunref", "bunref", "bclear", "breset", "bsave", "bsavepen", "brestore", "brestore", "bflush"]), rng.randrange(nrb)))
-        elif r < 0.70 and nrb: emit("btext %d %d %d %s" % (rng.randrange(nrb), rng.randint(0, 2), rng.randint(-2, 9), rand_text(rng)))
+        elif r < 0.70 and nrb:
+            q = rng.random()
+            t = bad_text(rng) if q < 0.3 else long_text(rng) + (rng.choice(BAD_ELEMS) if rng.random() < 0.5 else "") if q < 0.36 else rand_text(rng)
+            emit("%s %d %d %d %s" % (text_op(rng), rng.randrange(nrb), rng.randint(0, 2), rng.randint(-2, 9), t))
         elif r < 0.74 and nrb: emit("berase %d %d %d %d" % (rng.randrange(nrb), rng.randint(0, 2), rng.randint(-1, 9), rng.randint(1, 6)))
         elif r < 0.77 and nrb and npens: emit("bsetpen %d %s" % (rng.randrange(nrb), rng.choice(["-"] + [str(k) for k in range(npens)])))
         elif r < 0.82: emit("unref %d" % rng.randrange(nw))
@@ -239,8 +256,81 @@ def gen_pens_history(rng):
         else: emit("pbind %d q%d" % (k, k))
     emit("end")
 
+# grapheme clusters for the mock terminal: (bytes, columns).  One cell holds one cluster; a double-width cluster
+# leaves its second cell empty (NULL string).
+CLUSTERS = [("41", 1), ("7a", 1), ("20", 1), ("c3a9", 1), ("c2a1", 1), ("e282ac", 1), ("e4b8ad", 2), ("efbca1", 2), ("f09f9880", 2),
+            ("f0a08080", 2), ("65cc81", 1), ("41cc81cc88", 1), ("e4b8adcc81", 2), ("78e2808b", 1)]
+def mock_print(scr, L, C, line, col, clusters):
+    """mtd_goto_abs + mtd_print on the generator's copy of the screen (only used to steer clear of the known
+    exact-fill overflow; the Lean model decides what the display holds)"""
+    line = min(max(line, 0), L - 1); cur = min(max(col, 0), C - 1)
+    for hx, w in clusters:
+        sc = cur
+        if sc >= C:
+            sc = 0
+            if line < L - 1: line += 1
+        scr[line][sc] = hx
+        for k in range(sc + 1, min(cur + w, C)): scr[line][k] = None
+        cur += w
+def mock_disp_exact_fill(scr, line, col, width, ln):
+    """does tickit_mockterm_get_display_text copy a cell that exactly fills what is left (terminator at buffer[len])?"""
+    if ln <= 0: return False
+    rem = ln
+    for c in range(col, col + width):
+        n = len(scr[line][c]) // 2 if scr[line][c] else 0
+        if n and rem >= n:
+            rem -= n
+            if rem == 0: return True
+    return False
+def mock_lens(scr, line, col, width):
+    """buffer lengths for a span: (safe lengths that end inside a cell of several bytes, other safe lengths)"""
+    sizes = [len(scr[line][c]) // 2 if scr[line][c] else 0 for c in range(col, col + width)]
+    total = sum(sizes)
+    inside, other = [], []
+    for ln in range(1, total + 3):
+        if mock_disp_exact_fill(scr, line, col, width, ln): continue
+        # replay the walk: is some cell of several bytes refused because only part of it would fit?
+        rem, cut = ln, False
+        for n in sizes:
+            if n and rem >= n: rem -= n
+            elif n > 1 and rem > 0: cut = True
+        (inside if cut else other).append(ln)
+    return inside, other
+
+def gen_mock_content_history(rng, lens_all=False):
+    Lm, Cm = rng.randint(1, 3), rng.randint(2, 9)
+    emit("newmock %d %d" % (Lm, Cm))
+    scr = [["20"] * Cm for _ in range(Lm)]
+    for _ in range(rng.randint(1, 4)):
+        line = rng.randrange(Lm); col = rng.randrange(Cm) if rng.random() < 0.6 else 0
+        cl = []; used = col
+        for _ in range(rng.randint(1, Cm)):
+            c = rng.choice(CLUSTERS) if rng.random() < 0.75 else ("%02x" % rng.choice(ASCII), 1)
+            # mostly inside the line; now and then up to and over the right edge (wrap, wide character cut by the edge)
+            if used + c[1] > Cm and rng.random() < 0.85: break
+            cl.append(c); used += c[1]
+        if not cl: cl = [rng.choice(CLUSTERS[:6])]
+        emit("mprint %d %d %s" % (line, col, "".join(h for h, _ in cl)))
+        mock_print(scr, Lm, Cm, line, col, cl)
+    for _ in range(rng.randint(2, 8)):
+        line = rng.randrange(Lm); col = rng.randrange(Cm); width = rng.randint(1, Cm - col)
+        if rng.random() < 0.5: col, width = 0, Cm
+        inside, other = mock_lens(scr, line, col, width)
+        # a length <= width overflows by one on an empty screen (known finding mockterm_display_text): when a failing
+        # history is shrunk it turns into that probe, so most lengths are larger than the width
+        big = lambda l: [x for x in l if x > width] or l
+        r = rng.random()
+        if r < 0.08: ln = rng.choice([-1, 0])
+        elif r < 0.70 and inside: ln = rng.choice(big(inside) if rng.random() < 0.85 else inside)
+        elif other: ln = rng.choice(big(other) if rng.random() < 0.85 else other)
+        else: ln = 0
+        emit("mdisp %d %d %d %d" % (ln, line, col, width))
+    if rng.random() < 0.3: emit("tref")
+    emit("end")
+
 def gen_copyout_history(rng):
-    if rng.random() < 0.2:
+    if rng.random() < 0.3:
+        if rng.random() < 0.65: return gen_mock_content_history(rng)
         Lm, Cm = rng.randint(1, 3), rng.randint(2, 8)
         emit("newmock %d %d" % (Lm, Cm))
         for _ in range(rng.randint(1, 6)):
@@ -257,7 +347,7 @@ def gen_copyout_history(rng):
     for _ in range(rng.randint(1, 7)):
         r = rng.random(); line = rng.randrange(L); col = rng.randint(-1, C - 1)
         if r < 0.55:
-            t = rand_text(rng, 7); emit("btext 0 %d %d %s" % (line, col, t))
+            t = bad_text(rng) if rng.random() < 0.2 else rand_text(rng, 7); emit("%s 0 %d %d %s" % (text_op(rng), line, col, t))
         elif r < 0.70: emit("berase 0 %d %d %d" % (line, col, rng.randint(1, 5)))
         elif r < 0.78: emit("bskip 0 %d %d %d" % (line, col, rng.randint(1, 4)))
         elif r < 0.90: emit("bchar 0 %d %d %d" % (line, col, rng.choice([0x41, 0xe9, 0x20ac, 0x4e2d, 0x1f600, 0x7e])))
@@ -267,6 +357,177 @@ def gen_copyout_history(rng):
         line = rng.randrange(L); col = rng.randint(-1, C)
         ln = rng.choice([-1, 0, 1, 1, 2, 2, 3, 4, 5, 6, 8, 12])
         emit("%s 0 %d %d %d" % (rng.choice(["bcell", "bcell", "bspan"]), line, col, ln))
+    emit("end")
+
+def gen_terminput_history(rng):
+    """the terminal's own bindings and input entry points (push_bytes, readable, wait_msec / wait_tv, check_timeout_msec,
+    emit_key / emit_mouse) with handlers on the terminal and on windows that drop windows, the root and the terminal itself,
+    lone ESC bytes resolved by the inter-byte timeout (clock advanced by `tick`) or by the next byte"""
+    L, C = rng.choice([(6, 12), (4, 8), (10, 20)])
+    has_fd = rng.random() < 0.8
+    emit("%s %d %d" % ("newin" if has_fd else "new", L, C))
+    nw = 1
+    for _ in range(rng.randint(0, 3)):
+        emit("win %d %d %d %d %d %d" % ((rng.randrange(nw),) + rect(rng) + (rng.choice([0, 0, 0, 8]),))); nw += 1
+    def wacts(n):
+        out = []
+        for _ in range(n):
+            r = rng.random(); w = rng.randrange(nw)
+            if r < 0.35: out.append("u%d" % w)
+            elif r < 0.50: out.append("c%d" % w)
+            elif r < 0.58: out.append("r%d" % w)
+            elif r < 0.70: out.append("%s%d" % (rng.choice("RFLB"), w))
+            elif r < 0.78: out.append("%s%d" % (rng.choice("hs"), w))
+            else: out.append("f")
+        return out
+    for _ in range(rng.randint(0, 2)):
+        ev = rng.choice(["key", "key", "mouse"]); ret = rng.choice([0, 0, 1])
+        acts = wacts(rng.randint(0, 2))
+        if ev == "mouse" and ret == 1: acts = [x for i, x in enumerate(acts) if x[0] != "u" or i == 0][:1] + [x for x in acts[1:] if x[0] != "u"]
+        emit(("bind %d %s %d %s" % (rng.randrange(nw), ev, ret, " ".join(acts))).strip())
+    ntb = 0; trefs = 1
+    quit_shape = rng.random() < 0.35
+    if quit_shape:
+        # the application quits from a key (or mouse) handler on the terminal: it drops its windows and the terminal there
+        if rng.random() < 0.3: emit("tref"); trefs += 1
+        acts = ["u%d" % w for w in (range(nw - 1, -1, -1) if rng.random() < 0.5 else range(nw))] if rng.random() < 0.8 else ["u0"]
+        acts = acts[:6] + ["t"] * trefs
+        if rng.random() < 0.25: rng.shuffle(acts)
+        emit("tbind %s %d %s" % (rng.choice(["key", "key", "key", "mouse"]), rng.choice([0, 1]), " ".join(acts))); ntb += 1
+    for _ in range(rng.randint(0, 2)):
+        acts = wacts(rng.randint(0, 2)) + [rng.choice(["t", "t", "T"]) for _ in range(rng.randint(0, 2))]
+        rng.shuffle(acts)
+        emit(("tbind %s %d %s" % (rng.choice(["key", "mouse"]), rng.choice([0, 0, 1]), " ".join(acts))).strip()); ntb += 1
+    pend = False
+    def toks():
+        nonlocal pend
+        out = []
+        n = rng.choice([0, 1, 1, 1, 2, 2, 3, 4])
+        if pend:
+            if n == 0 or rng.random() < 0.3: return out
+            out.append("a"); pend = False; n -= 1
+        for _ in range(n):
+            r = rng.random()
+            if r < 0.45: out.append(rng.choice(["a", "a", "A", "U"]))
+            else: out.append("%s%d,%d" % (rng.choice("PPDDR"), rng.randint(0, L - 1), rng.randint(0, C - 1)))
+        if rng.random() < (0.6 if quit_shape else 0.3): out.append("E"); pend = True
+        return out
+    for _ in range(rng.randint(4, 14)):
+        r = rng.random()
+        if pend and rng.random() < 0.4:
+            # an ESC is waiting: let the inter-byte timeout turn it into the key Escape through one of the entry points
+            q = rng.random()
+            if q < 0.45:
+                emit("tick %d" % rng.choice([50, 60, 1000])); emit("tcheck")
+            elif q < 0.8:
+                if rng.random() < 0.5: emit("tick %d" % rng.choice([20, 50, 70]))
+                emit(rng.choice(["twait", "twaitv"]))
+                if has_fd: pend = False
+            else: emit("tcheck")
+            continue
+        if r < 0.22: emit(("tpush " + " ".join(toks())).strip())
+        elif r < 0.34:
+            was = pend
+            emit(("tread " + " ".join(toks())).strip())
+            if not has_fd: pend = was              # skipped: nothing reaches libtermkey
+        elif r < 0.56:
+            was = pend
+            t = toks()
+            if not t: pend = False                 # select() finds nothing: timedout() resolves the ESC
+            if not has_fd: pend = was
+            emit(("%s %s" % (rng.choice(["twait", "twait", "twaitv"]), " ".join(t))).strip())
+        elif r < 0.66: emit("tcheck")
+        elif r < 0.76: emit("tick %d" % rng.choice([10, 30, 50, 50, 60, 1000]))
+        elif r < 0.80: emit("key")
+        elif r < 0.84: emit("mouse %d 1 %d %d" % (rng.choice([1, 2, 3]), rng.randint(0, L - 1), rng.randint(0, C - 1)))
+        elif r < 0.88: emit(rng.choice(["tunref", "tref", "tunref"]))
+        elif r < 0.92: emit("%s %d" % (rng.choice(["unref", "unref", "close", "ref"]), rng.randrange(nw)))
+        elif r < 0.95 and ntb: emit("tunbind %d" % rng.randint(3, 4 + ntb))
+        elif r < 0.97: emit("flush")
+        else:
+            emit("tbind key %d %s" % (rng.choice([0, 1]), rng.choice(["t", "u0 t", "T", "c0"]))); ntb += 1
+    emit("end")
+
+def gen_toplevel_history(rng):
+    """the toplevel instance (tickit_build for a terminal, tickit_get_rootwin / tickit_get_term with references of the
+    application's own, tickit_ref / tickit_unref, tickit_watch_later / timer / cancel, tickit_tick) together with windows:
+    the instance dropped while its root window still has children, with deferred calls pending, before or after the
+    application's own references.  Handlers make no restacking requests (see Model/LifeTop.lean) and the last reference to
+    the instance is not dropped while the application holds the root window (known finding rootwin_outlives_tickit)."""
+    L, C = rng.choice([(6, 12), (4, 8), (10, 20)])
+    emit("newtop %d %d" % (L, C))
+    nw = 1; root_refs = 1; inst_refs = 1; nwatch = 0; ntb = 0
+    parent = {0: None}
+    for _ in range(rng.randint(0, 4)):
+        p = rng.randrange(nw)
+        d = 0; x = p
+        while parent[x] is not None: x = parent[x]; d += 1
+        if d >= 3: p = 0
+        emit("win %d %d %d %d %d %d" % ((p,) + rect(rng) + (rng.choice([0, 0, 0, 1, 2, 8]),))); parent[nw] = p; nw += 1
+    def nonroot(): return rng.randrange(1, nw) if nw > 1 else 1
+    def hacts(n, term=True):
+        out = []
+        for _ in range(n):
+            r = rng.random(); w = nonroot()
+            if r < 0.35: out.append("u%d" % w)
+            elif r < 0.50: out.append("c%d" % w)
+            elif r < 0.60: out.append("r%d" % w)
+            elif r < 0.72: out.append("%s%d" % (rng.choice("hs"), rng.randrange(nw)))
+            elif r < 0.80: out.append("f")
+            elif term: out.append(rng.choice(["t", "t", "T"]))
+        return out
+    for _ in range(rng.randint(0, 2)):
+        emit(("bind %d %s %d %s" % (rng.randrange(nw), rng.choice(["key", "key", "mouse"]), 0, " ".join(hacts(rng.randint(0, 2), False)))).strip())
+    for _ in range(rng.randint(0, 2)):
+        emit(("tbind %s %d %s" % (rng.choice(["key", "mouse"]), rng.choice([0, 0, 1]), " ".join(hacts(rng.randint(0, 2))))).strip()); ntb += 1
+    pend = False
+    def toks():
+        nonlocal pend
+        out = []
+        n = rng.choice([0, 0, 1, 1, 2, 3])
+        if pend:
+            if n == 0 or rng.random() < 0.3: return out
+            out.append("a"); pend = False; n -= 1
+        for _ in range(n):
+            if rng.random() < 0.55: out.append(rng.choice(["a", "a", "A", "U"]))
+            else: out.append("%s%d,%d" % (rng.choice("PPDDR"), rng.randint(0, L - 1), rng.randint(0, C - 1)))
+        if rng.random() < 0.3: out.append("E"); pend = True
+        return out
+    def drop_inst():
+        nonlocal inst_refs, root_refs
+        if inst_refs == 1:
+            while root_refs > 0: emit("unref 0"); root_refs -= 1
+        if inst_refs > 0: emit("iunref"); inst_refs -= 1
+    early = rng.random() < 0.6          # the instance goes before (some of) the windows
+    for step in range(rng.randint(5, 16)):
+        r = rng.random()
+        if early and inst_refs > 0 and rng.random() < 0.12: drop_inst(); continue
+        if r < 0.10: emit("unref %d" % nonroot())
+        elif r < 0.14:
+            if rng.random() < 0.5 and root_refs > 0: emit("ref 0"); root_refs += 1
+            elif root_refs > 0: emit("unref 0"); root_refs -= 1
+        elif r < 0.18: emit("%s %d" % (rng.choice(["close", "ref"]), nonroot()))
+        elif r < 0.30: emit("%s %d" % (rng.choice(["raise", "raisefront", "lower", "lowerback"]), nonroot()))
+        elif r < 0.35: emit("%s %d" % (rng.choice(["hide", "show", "expose"]), rng.randrange(nw)))
+        elif r < 0.38: emit("flush")
+        elif r < 0.42 and nw < 8:
+            p = rng.randrange(nw); emit("win %d %d %d %d %d 0" % ((p,) + rect(rng))); parent[nw] = p; nw += 1
+        elif r < 0.54: emit(("ilater " + " ".join(hacts(rng.randint(0, 3)))).strip()); nwatch += 1
+        elif r < 0.62: emit(("itimer %d %s" % (rng.choice([0, 10, 50, 100]), " ".join(hacts(rng.randint(0, 2))))).strip()); nwatch += 1
+        elif r < 0.66 and nwatch: emit("icancel %d" % rng.randrange(nwatch + 1))
+        elif r < 0.80:
+            t = toks()
+            emit(("itick " + " ".join(t)).strip())
+        elif r < 0.85: emit("tick %d" % rng.choice([10, 50, 60, 100]))
+        elif r < 0.88: emit("iref"); inst_refs += 1 if inst_refs > 0 else 0
+        elif r < 0.91: emit(rng.choice(["tunref", "tref", "tunref"]))
+        elif r < 0.94:
+            was = pend; t = toks()
+            emit(("%s %s" % (rng.choice(["tpush", "tread", "twait"]), " ".join(t))).strip())
+            pend = was or pend       # skipped when the application has dropped its own reference to the terminal: conservative
+        elif r < 0.96: emit("tcheck")
+        elif r < 0.98: emit("key")
+        else: drop_inst()
     emit("end")
 
 info = {}
@@ -282,10 +543,57 @@ if a.tier == "exhaustive":
             emit("bind 2 key 0 u2")
             for s in seq: emit(s)
             emit("flush"); emit("end"); nh += 1
-    info = {"exhaustive_bound": "all sequences of <=3 (and a seed-selected quarter of the length-4) operations over a 13-letter lifecycle alphabet on root>1>2, 3 sibling of 1, one pen, one self-unref key handler; each followed by flush and end", "histories": nh}
+    # the mock terminal's copy-out call: every safe buffer length for every span of five fixed lines
+    FIXED = [[("c3a9", 1), ("41", 1), ("e4b8ad", 2), ("e282ac", 1)], [("e4b8ad", 2), ("f09f9880", 2), ("7a", 1)],
+             [("65cc81", 1), ("efbca1", 2), ("c2a1", 1), ("41cc81cc88", 1)], [("41", 1), ("e4b8adcc81", 2), ("78e2808b", 1), ("c3a9", 1)],
+             [("f0a08080", 2), ("c3a9", 1), ("c3a9", 1), ("e282ac", 1)]]
+    nm = 0
+    for cl in FIXED:
+        Cm = sum(w for _, w in cl) + (a.seed % 2)
+        for col in range(Cm):
+            for width in range(1, Cm - col + 1):
+                scr = [["20"] * Cm]
+                mock_print(scr, 1, Cm, 0, 0, cl)
+                inside, other = mock_lens(scr, 0, col, width)
+                emit("newmock 1 %d" % Cm); emit("mprint 0 0 %s" % "".join(h for h, _ in cl))
+                for ln in [-1, 0] + sorted(inside + other): emit("mdisp %d 0 %d %d" % (ln, col, width))
+                emit("end"); nm += 1
+    # the terminal's input entry points: every sequence of <= 3 operations with a key handler on the terminal that quits
+    alpha_t = ["tpush E", "tpush a", "twait", "twaitv a", "tread E", "tcheck", "tick 60", "tunref", "tref", "key", "unref 0", "tpush P1,1 R1,1"]
+    nt = 0
+    for k in range(1, 4):
+        for seq in itertools.product(alpha_t, repeat=k):
+            esc = False; ok = True
+            for o in seq:      # an ESC is followed by nothing but `a` (Model/LifeTop.lean `decode`)
+                if esc and o in ("tread E", "tpush E", "tpush P1,1 R1,1"): ok = False
+                if o.endswith(" E"): esc = True
+                elif o in ("tpush a", "twaitv a", "twait"): esc = False
+            if not ok: continue
+            emit("newin 6 12"); emit("win 0 0 0 2 4 0"); emit("tbind key %d u1 u0 t" % (len(seq) % 2))
+            for o in seq: emit(o)
+            emit("end"); nt += 1
+    # the toplevel instance: every sequence of <= 3 operations on root > 1 > 2 (the last reference to the instance is not
+    # dropped while the application holds the root window: known finding rootwin_outlives_tickit)
+    alpha_i = ["unref 0", "unref 1", "unref 2", "iunref", "iref", "ilater u2", "ilater", "itimer 0 c1", "itick", "itick a", "raise 1", "flush", "tunref", "icancel 0"]
+    ni = 0
+    for k in range(1, 4):
+        for seq in itertools.product(alpha_i, repeat=k):
+            rr, ir, ok = 1, 1, True
+            for o in seq:
+                if o == "unref 0" and rr > 0: rr -= 1
+                elif o == "iref" and ir > 0: ir += 1
+                elif o == "iunref" and ir > 0:
+                    if ir == 1 and rr > 0: ok = False
+                    ir -= 1
+            if not ok: continue
+            emit("newtop 6 12"); emit("win 0 0 0 4 8 0"); emit("win 1 0 0 2 4 0"); emit("bind 2 key 0 u2")
+            for o in seq: emit(o)
+            emit("end"); ni += 1
+    info = {"mock_display_histories": nm, "terminput_histories": nt, "toplevel_histories": ni}
+    info.update({"exhaustive_bound": "all sequences of <=3 (and a seed-selected quarter of the length-4) operations over a 13-letter lifecycle alphabet on root>1>2, 3 sibling of 1, one pen, one self-unref key handler; each followed by flush and end; tickit_mockterm_get_display_text with every buffer length (short of the known exact-fill overflow) for every span of five fixed lines of multi-byte, double-width and combining cells; all sequences of <=3 operations over a 12-letter alphabet of terminal input calls with a quitting key handler on the terminal, and over a 14-letter alphabet of toplevel-instance calls on root>1>2", "histories": nh})
 else:
     scale = 1 if a.tier == "quick" else 5
-    fams = {"tree": 700, "handlers": 700, "foreign": 400, "objects": 400, "pens": 400, "copyout": 400}
+    fams = {"tree": 700, "handlers": 700, "foreign": 400, "objects": 400, "pens": 400, "copyout": 400, "terminput": 500, "toplevel": 500}
     if a.families:
         fams = {k: v for k, v in fams.items() if k in a.families.split(",")}
     for fam, n in fams.items():
@@ -296,6 +604,8 @@ else:
             elif fam == "foreign": gen_tree_history(rng, True, True)
             elif fam == "objects": gen_objects_history(rng)
             elif fam == "pens": gen_pens_history(rng)
+            elif fam == "terminput": gen_terminput_history(rng)
+            elif fam == "toplevel": gen_toplevel_history(rng)
             else: gen_copyout_history(rng)
             fam_count[fam] = fam_count.get(fam, 0) + 1
     info = {"histories": sum(fam_count.values()), "families": fam_count}
